@@ -30,12 +30,14 @@ P08 == INSTANCE P_C08
 P12 == INSTANCE P_C12
 P13 == INSTANCE P_C13
 P14 == INSTANCE P_C14
+P17 == INSTANCE P_C17
 Dev == INSTANCE Deviations
 
 Mode == IF "MODE" \in DOMAIN IOEnv THEN IOEnv.MODE ELSE "L1"
 SeqToSet(s) == {s[i] : i \in 1..Len(s)}
 CfgOf(j) == [allowId |-> j.allowId, allowHier |-> j.allowHier, allowSize |-> j.allowSize, hasMax |-> j.hasMax,
-             max |-> j.max, buffered |-> SeqToSet(j.buffered), eofClose |-> j.eofClose]
+             max |-> j.max, buffered |-> SeqToSet(j.buffered), eofClose |-> j.eofClose,
+             cap0 |-> IF j.cap < 0 THEN 65536 ELSE j.cap]
 Strict(cfg) == ~cfg.allowId /\ ~cfg.allowHier /\ ~cfg.allowSize
 
 (* ---------------- Level 1: recorded result = specified result ---------------- *)
@@ -56,7 +58,7 @@ Brief(s) == IF s.res = "item" THEN <<s.kind, s.id, s.off>> ELSE IF s.res = "err"
 (* ---------------- Level 0: dispatch to the property specification ---------------- *)
 Trivial == [ok |-> TRUE, why |-> ""]
 MonInit == CASE Mode = "C03" -> P03!M0 [] Mode = "C05" -> P05!M0 [] Mode = "C06" -> P06!M0
-             [] Mode = "C07" -> P07!M0 [] Mode = "C14" -> P14!M0 [] OTHER -> Trivial
+             [] Mode = "C07" -> P07!M0 [] Mode = "C14" -> P14!M0 [] Mode = "C17" -> P17!M0 [] OTHER -> Trivial
 \* which runs a monitor speaks about
 Applies == CASE Mode = "C06" -> Strict(run.cfg) [] OTHER -> TRUE
 MonStep(e) ==
@@ -67,6 +69,7 @@ MonStep(e) ==
          [] Mode = "C06" -> P06!Step(c.sch, run.inp, run.cfg, m, e)
          [] Mode = "C07" -> P07!Step(c.sch, run.inp, run.cfg, m, e)
          [] Mode = "C14" -> P14!Step(c.sch, run.inp, run.cfg, m, e)
+         [] Mode = "C17" -> P17!Step(c.sch, run.inp, run.cfg, m, e)
          [] OTHER -> m
 MonRead(e) == IF Mode = "C05" THEN P05!StepRead(run.inp, m, e) ELSE m
 
@@ -116,8 +119,8 @@ StepRun(e)  == /\ run' = [inp |-> e.input, cfg |-> CfgOf(e.cfg), tag |-> e.tag, 
                /\ r' = InitReader /\ m' = MonInit /\ UNCHANGED <<c, skip>>
 StepNextL1(e) ==
   LET s == NextCall(c.sch, run.cfg, run.inp, r) IN
-  IF ResEq(e, s.res) THEN r' = s.r /\ UNCHANGED <<c, run, m, skip>>
-  ELSE Reject(l, <<"L1 next", c.n, run.tag, "expected", Brief(s.res)>>) /\ skip' = TRUE /\ UNCHANGED <<c, run, r, m>>
+  IF ResEq(e, s.res) /\ (("st" \in DOMAIN e) => e.st.cap = Capacity(run.cfg.cap0, s.r)) THEN r' = s.r /\ UNCHANGED <<c, run, m, skip>>
+  ELSE Reject(l, <<"L1 next", c.n, run.tag, "expected", Brief(s.res), Capacity(run.cfg.cap0, s.r)>>) /\ skip' = TRUE /\ UNCHANGED <<c, run, r, m>>
 StepRecoverL1(e) ==
   LET s == RecoverCall(c.sch, run.cfg, run.inp, r) IN
   IF (s.ok /\ e.res = "ok") \/ (~s.ok /\ e.res = "eof" /\ e.pos = s.e.pos) THEN r' = s.r /\ UNCHANGED <<c, run, m, skip>>
